@@ -58,7 +58,20 @@ Proof.
   clear. unfold ndim_of. generalize mask. induction (dims t) as [|d ds IH]; intro m; cbn [length bits_of]; [reflexivity|].
   rewrite IH. reflexivity.
 Qed.
+
+(* Arbitrary derivative orders (ndsplineeval_deriv): order 0 and 1 along a dimension as above; an order >= 2 along a dimension
+   is covered where that dimension's knots are strictly increasing and the coordinate lies below the upper end of full support
+   (derivk_ok). Outside that — exactly on knots at or above knots[naxes] — the code uses the piece to the RIGHT, which is the
+   known finding C02:deriv>=2@x>=upper_full_support_knot, not a theorem. Orders above the spline order give zero (dBfun). *)
+Theorem C02_deriv_is_derivative_sum : forall ks, length ks = length (dims t) ->
+  Forall3 derivk_ok (dims t) xs ks ->
+  ndsplineeval_deriv t xs cs ks = spline_spec t xs ks.
+Proof. intros ks Hk Hok. exact (eval_deriv_is_tensor_sum F t xs cs ks Hne Hwf Hrow Hlen Hk Hsc Hreg Hok). Qed.
 End C02.
+
+(* a derivative order above the spline order vanishes identically in the formula *)
+Theorem C02_high_order_zero : forall (A : Arith) (F : OField A) (kn : Z -> T A) side n k i x, (n < k)%nat -> dBfun kn side k n i x = zero.
+Proof. intros A F kn side n k i x H. exact (dB_high_order_zero F kn side n k i x H). Qed.
 
 (* which derivative orders a bitmask denotes *)
 Theorem C02_bits_of_spec : forall n mask d, 0 <= mask -> (d < n)%nat ->
@@ -93,9 +106,26 @@ Proof.
   destruct Hx as [<-|[<-|[]]]; eexists; (split; [vm_compute; reflexivity|]); split; try (vm_compute; reflexivity); vm_compute; discriminate.
 Qed.
 
+(* second derivative of the order-2 example at 7/2: strictly increasing knots, below the upper end — hypotheses of
+   C02_deriv_is_derivative_sum hold and the value is the non-zero constant second derivative of that piece *)
+Example C02_deriv2_satisfiable :
+  Forall3 derivk_ok (dims ex_tab2) [Q2Qc (7 # 2)] [2%nat] /\
+  ndsplineeval_deriv ex_tab2 [Q2Qc (7 # 2)] [3] [2%nat] = spline_spec ex_tab2 [Q2Qc (7 # 2)] [2%nat] /\
+  ndsplineeval_deriv ex_tab2 [Q2Qc (7 # 2)] [3] [2%nat] = Q2Qc 2.
+Proof.
+  split; [|split; vm_compute; reflexivity].
+  constructor; [|constructor]. right. split.
+  - intros i j Hi Hij Hj. cbn [d_kn d_nknots] in *. unfold qz2. apply Qc_ltb_lt. unfold Qclt. cbn [this Q2Qc].
+    rewrite !Qred_correct. rewrite <- Zlt_Qlt. lia.
+  - vm_compute. reflexivity.
+Qed.
+
 Print Assumptions C02_bitmask_is_derivative_sum.
 Print Assumptions C02_gradient_components.
 Print Assumptions C02_order0_derivative_zero.
+Print Assumptions C02_deriv_is_derivative_sum.
+Print Assumptions C02_high_order_zero.
 Print Assumptions C02_bits_of_spec.
 Print Assumptions C02_local_derivative_basis.
 Print Assumptions C02_hypotheses_satisfiable.
+Print Assumptions C02_deriv2_satisfiable.
